@@ -48,7 +48,7 @@ def xta_models(rng, n):
 def run(rep, tier, seed):
     rng = random.Random(seed * 1000003 + 8)
     quick = tier == "quick"
-    n = 5000 if quick else 120000
+    n = 12000 if quick else 120000
     hs = workloads.hostile_models(rng, n)
     cases = []
     for i, (tag, xml) in enumerate(hs):
